@@ -17,6 +17,9 @@ def run(ctx):
     for v in range(2 if ctx.quick else 3):
         for a in ("PaVeBaGP-IH", "PaVeBaPartialGP-rect"):
             recs.append(scenarios.run_spec(scenarios.paveba_gp_requery(a, variant=v), max_steps=4))
+    for v in range(2 if ctx.quick else 3):
+        for a in ("PaVeBa", "PaVeBaGP-DE"):
+            recs.append(scenarios.run_spec(scenarios.paveba_unequal_alpha(a, variant=v), max_steps=3))
     an = algcheck.Analysis(ctx, recs)
     viol = algcommon.diff_violations(an, KEYS, "C03")
     for r in recs:
